@@ -946,6 +946,17 @@ TRANSFORM_EXTRA = ["morphed", "add", "add-touching", "matmul", "mul", "to_simple
 
 
 def op_transform(rng, specs):
+    a = _op_transform(rng, specs)
+    if a["what"] == "save-load":
+        # the file round trip exists for tetrahedral / hexahedral meshes only (see run_transform): drawn on one of those
+        # when the program has any, so that the required reach point does not hang on a second lucky draw
+        ids3 = [i for i in _mesh_ids(specs, unit=False) if specs.meshes[i]["kind"] in ("tet", "hex")]
+        if ids3:
+            a["mid"] = str(ids3[int(rng.integers(len(ids3)))])
+    return a
+
+
+def _op_transform(rng, specs):
     mid = str(rng.choice(_mesh_ids(specs, unit=False)))
     return dict(mid=mid, what=str(rng.choice(["refined", "translated", "scaled", "mirrored", "with_boundaries",
                                                 "with_subdomains", "restrict", "facets", "f2t", "boundary", "adaptive",
